@@ -1,0 +1,27 @@
+//go:build verif
+
+package interp
+
+// Verification hooks for source import resolution (property C16), second file: the functions added by
+// the repairs of F16, F16-2, F16-4, F16-6 and F16-10. Compiled only with -tags verif; thin wrappers over
+// unexported functions of src.go, no behaviour change.
+
+// VerifGoPkgDir exposes (*Interpreter).goPkgDir; the filesystem is the interpreter's
+// Options.SourcecodeFilesystem.
+func (interp *Interpreter) VerifGoPkgDir(goPath, root, importPath string) (dir, rPath string, err error) {
+	return interp.goPkgDir(goPath, root, importPath)
+}
+
+// VerifMainRoot exposes (*Interpreter).mainRoot for an interpreter whose input file is name.
+func (interp *Interpreter) VerifMainRoot(name, rPath string) string {
+	saved := interp.name
+	defer func() { interp.name = saved }()
+	interp.name = name
+	return interp.mainRoot(rPath)
+}
+
+// VerifRelativePath exposes relativePath.
+func VerifRelativePath(base, path string) string { return relativePath(base, path) }
+
+// VerifNoRoot exposes the constant noRoot.
+const VerifNoRoot = noRoot
